@@ -9,7 +9,9 @@ pub mod c02;
 pub mod c03;
 pub mod c04;
 pub mod c07;
+pub mod c08;
 pub mod c09;
+pub mod c11;
 pub mod c13;
 pub mod c18;
 
@@ -20,7 +22,9 @@ pub fn run(ctx: &Ctx) -> i32 {
         "C03" => c03::run(ctx),
         "C04" => c04::run(ctx),
         "C07" => c07::run(ctx),
+        "C08" => c08::run(ctx),
         "C09" => c09::run(ctx),
+        "C11" => c11::run(ctx),
         "C13" => c13::run(ctx),
         "C18" => c18::run(ctx),
         other => {
@@ -39,7 +43,9 @@ pub fn replay_case(prop: &str, sub: &str, case: Value) -> Result<(), String> {
         "C03" => c03::replay(sub, case),
         "C04" => c04::replay(sub, case),
         "C07" => c07::replay(sub, case),
+        "C08" => c08::replay(sub, case),
         "C09" => c09::replay(sub, case),
+        "C11" => c11::replay(sub, case),
         "C13" => c13::replay(sub, case),
         "C18" => c18::replay(sub, case),
         other => Err(format!("HARNESS: no replay for property {other}")),
@@ -117,6 +123,7 @@ pub fn verdict_class(v: &crate::model::Verdict) -> &'static str {
 pub fn worker(mode: &str) {
     match mode {
         "c09" => c09::worker_main(),
+        "c11" => c11::worker_main(),
         "c13" => c13::worker_main(),
         other => {
             eprintln!("rt: unknown worker mode {other}");
